@@ -55,6 +55,9 @@ func c13List(c *core.Ctx) []string {
 			lines = append(lines, c18IPs[c.Rng.Intn(len(c18IPs))]+" "+h, h)
 		case r == 13:
 			lines = append(lines, c15Rule(c))
+		case r == 14 && c.Rng.Intn(2) == 0:
+			// Referrer-level exceptions narrower than the host.
+			lines = append(lines, []string{"@@||site.com/app/$urlblock", "@@|https://site.com^$genericblock", "@@||site.com/other$document", "@@||site.com/app/$genericblock,important"}[c.Rng.Intn(4)])
 		case r == 14:
 			lines = append(lines, "@@||site.com^$"+[]string{"urlblock", "genericblock", "document", "elemhide", "stealth", "generichide,jsinject"}[c.Rng.Intn(6)])
 		default:
@@ -273,7 +276,7 @@ func c13Run(c *core.Ctx, idx int) {
 		q := gen.RandomReq(c.Rng, 0)
 		q.URL = "http://" + c13Hosts[c.Rng.Intn(len(c13Hosts))] + []string{"/", "/ads/x.js", "/banner"}[c.Rng.Intn(3)]
 		if c.Rng.Intn(2) == 0 {
-			q.Source = "http://site.com/"
+			q.Source = []string{"http://site.com/", "http://site.com/app/page", "http://site.com/other", "https://site.com/app/", "https://site.com/"}[c.Rng.Intn(5)]
 		}
 		pool = append(pool, c13Op{Kind: []string{"web", "all"}[c.Rng.Intn(2)], Req: q})
 	}
